@@ -1,6 +1,13 @@
 import engine_check
+import shipped
+
+
 def run(ctx):
     engine_check.run(ctx, "C02")
+    # contrib rules and shipped grammars (integer, raw_string, rep_one_min_max, predicates, http chunk rules, json, uri, ...):
+    # oracle on the implementation's own invocation trace (no engine-model comparison in this stage)
+    shipped.run_oracle(ctx, "C02")
+
 
 def replay(j):
     return engine_check.replay(j)
